@@ -56,12 +56,16 @@ func (c *rollupCheck) poolFor(tier string, worker, nworkers int, seed uint64) []
 		// one- and multi-block hash inputs for both modes
 		out = append(out, dims{rollup.Insertion, 1 + t.Draw(5), 1 + worker%2*2}, dims{rollup.Deletion, 1 + t.Draw(5), 1 + t.Draw(3)})
 		if tier == "thorough" {
-			delB := []int{17, 18, 19, 20, 2, 5, 18, 19}
+			delB := []int{17, 18, 16, 20, 15, 5, 18, 19}
 			out = append(out, dims{rollup.Deletion, 2 + t.Draw(3), delB[worker%len(delB)]}, dims{rollup.Insertion, 2 + t.Draw(8), 2 + t.Draw(5)},
 				dims{rollup.Insertion, 20 + t.Draw(13), 1}, dims{rollup.Deletion, 20 + t.Draw(12), 1})
 		} else {
-			// hashed deletion message = 64+4*batch bytes: 132, 136 (exactly the Keccak rate), 140, and a 2-block insertion
-			out = append(out, []dims{{rollup.Deletion, 2, 18}, {rollup.Deletion, 2, 17}, {rollup.Deletion, 2, 19}, {rollup.Insertion, 3, 5}}[worker%4])
+			// hashed deletion message = 64+4*batch bytes: 124 (ends mid-lane, separator and closing byte in different lanes),
+			// 128 (the padding is exactly the block's last lane: separator 0x01 and closing 0x80 share it), 132 (both in the
+			// last half lane), 136 (exactly the Keccak rate: a whole padding block), 140; insertion = 68+32*batch bytes: 132
+			// at batch 2 (the only insertion size whose padding fits the last lane), and a 2-block insertion
+			out = append(out, []dims{{rollup.Deletion, 2, 18}, {rollup.Deletion, 2, 16}, {rollup.Deletion, 2, 17}, {rollup.Insertion, 3, 5},
+				{rollup.Deletion, 2, 15}, {rollup.Insertion, 3, 2}, {rollup.Deletion, 2, 19}, {rollup.Deletion, 2, 16}}[worker%8])
 		}
 	}
 	for i := range out {
